@@ -6,7 +6,7 @@
    Premises: `strict` = the importer stops at the first error of DAGService.Add; the theorems below are the
    `_partial` forms under that guard, importer_swallow_refuted is the refutation without it;
    `sizes_by_cid` = content addressing (equal CIDs, equal sizes). Traces are chronological. *)
-From V Require Import Base.Common Model.C13_Adder Model.C13_Check Model.C13_Spec Proofs.C13_Theorems.
+From V Require Import Base.Common Model.C13_Adder Model.C13_Check Model.C13_Spec Proofs.C13_Theorems Proofs.C13_Monitor.
 Open Scope N_scope.
 
 (* BlockAdder.Add fails exactly when every destination errored; otherwise the destinations that did not
@@ -181,3 +181,76 @@ Proof.
   split; [intros b l [<-|[<-|[<-|[<-|[]]]]]; simpl; intuition (subst; auto)|].
   vm_compute. repeat split.
 Qed.
+
+(* ---- the run-time monitors of Model/C13_Check.v (codes 10..15) and the theorems above ----
+   check_case applies them to the implementation's result r and chronological trace t for a generated input i
+   (stream, root, limit, MaxLinks, scripted allocation / put / pin outcomes). *)
+
+(* completeness: for every input whose importer is strict (and, sharded, MaxLinks > 0 and content-addressed sizes), the
+   model's own result and trace — sharded, unsharded, or given up by the importer — pass all six monitors *)
+Theorem model_passes_monitors i : strict (i_stream i) -> (i_shard i = true -> 0 < i_maxlinks i /\ sizes_by_cid (i_stream i)) ->
+  let '(r, t) := run i in
+  delivered_okb i r t = true /\ partition_okb i r t = true /\ under_limit_okb i r t = true /\ depth_okb i r t = true /\
+  final_pins_okb i r t = true /\ failure_okb i r t = true.
+Proof. exact (model_passes_monitors_l i). Qed.
+Print Assumptions model_passes_monitors.
+
+(* soundness, code 10: the data blocks put are the (de-duplicated, when sharding) stream in order; every round stored its block
+   on a daemon that answered ok; the root and every linked block of the stream were delivered; sharded: every node of
+   every shard DAG and of the cluster DAG was put (delivered_spec, Proofs/C13_Monitor.v) *)
+Theorem delivered_monitor_sound i r t : delivered_okb i r t = true -> is_ok r = true -> delivered_spec i t.
+Proof. exact (delivered_okb_sound_l i r t). Qed.
+Print Assumptions delivered_monitor_sound.
+
+(* ... hence, with the importer's contract, everything reachable from the root was delivered *)
+Theorem delivered_closed_monitor_sound i r t : delivered_okb i r t = true -> is_ok r = true ->
+  link_closed (i_stream i) -> In (i_root i) (cids_of (i_stream i)) -> forall x, reach (i_stream i) (i_root i) x -> In x (data_puts t).
+Proof. exact (delivered_closed_sound_l i r t). Qed.
+Print Assumptions delivered_closed_monitor_sound.
+
+(* code 11: the shard pins partition the de-duplicated stream, and the cluster DAG pinned is the DAG of the shard pins *)
+Theorem partition_monitor_sound i r t : partition_okb i r t = true -> is_ok r = true -> i_shard i = true -> partition_spec i t.
+Proof. exact (partition_okb_sound_l i r t). Qed.
+Print Assumptions partition_monitor_sound.
+
+(* code 12: every shard pin issued accounts for exactly the sizes of its blocks and is under the limit *)
+Theorem under_limit_monitor_sound i r t : under_limit_okb i r t = true -> i_shard i = true ->
+  forall q, In q (all_pins t) -> pty q = TShard ->
+  pssize q < i_limit i /\ pssize q = sum_sizes (i_stream i) (flatten_data (pcid q)).
+Proof. exact (under_limit_okb_sound_l i r t). Qed.
+Print Assumptions under_limit_monitor_sound.
+
+(* code 13: every shard pin issued is recursive or deep enough to cover its DAG *)
+Theorem depth_monitor_sound i r t : depth_okb i r t = true ->
+  forall q, In q (all_pins t) -> pty q = TShard -> (pdepth q < 0)%Z \/ covers (pcid q) (Z.to_nat (pdepth q)) = true.
+Proof. exact (depth_okb_sound i r t). Qed.
+Print Assumptions depth_monitor_sound.
+
+(* code 14: success returns the root; sharded: the successful pins are the shard pins (requested factors, numbered, chained),
+   then the cluster-DAG pin (everywhere, direct, referencing the root), then the meta pin of the root referencing the cluster
+   DAG, and every put / data pin stayed within the allocation in force; unsharded: one recursive data pin of the root with the
+   requested factors, puts to the local daemon only (local) or within the allocation *)
+Theorem final_pins_monitor_sound i r t : final_pins_okb i r t = true -> is_ok r = true ->
+  r = ROk (CData (i_root i)) /\ (if i_shard i then final_sharded_spec i t else final_single_spec i t).
+Proof. exact (final_pins_okb_sound_l i r t). Qed.
+Print Assumptions final_pins_monitor_sound.
+
+(* code 15: a failed add leaves no successful pin of the root *)
+Theorem failure_monitor_sound i r t : failure_okb i r t = true -> is_ok r = false ->
+  forall q, In q (ok_pins t) -> pcid q <> CData (i_root i).
+Proof. exact (failure_okb_sound i r t). Qed.
+Print Assumptions failure_monitor_sound.
+
+(* non-vacuity: the sharded example above as a harness input meets the premises and its run passes; the same trace without
+   its first put, or an unsharded add whose root pin failed reported as a success, does not *)
+Example c13_monitor_example :
+  let i := mk_input true 1 2 100 5984 false [Some [1; 2]; Some [3]] [(1, 2, PRpc)] []
+                    [mkb 1 40 []; mkb 2 50 []; mkb 1 40 []; mkb 3 30 [1; 2]] 3 false in
+  strict (i_stream i) /\ 0 < i_maxlinks i /\ sizes_by_cid (i_stream i) /\
+  fst (run i) = ROk (CData 3) /\ delivered_okb i (fst (run i)) (snd (run i)) = true /\ final_pins_okb i (fst (run i)) (snd (run i)) = true /\
+  delivered_okb i (fst (run i)) (filter (fun ev => match ev with EPut (CData 1) _ _ => false | _ => true end) (snd (run i))) = false /\
+  failure_okb i (RErr EPinFail) (snd (run i)) = false.
+Proof. cbv zeta.
+  split; [intros b [<-|[<-|[<-|[<-|[]]]]]; reflexivity|]. split; [reflexivity|].
+  split; [intros b b' [<-|[<-|[<-|[<-|[]]]]] [<-|[<-|[<-|[<-|[]]]]]; simpl; intros; congruence|].
+  vm_compute. repeat split. Qed.
